@@ -142,6 +142,37 @@ def iqRouteP (parse : ParseFn) (tbl : Table) (stanza : List Tok) (c : Nat) : IqO
 def ownAddrs (attrs : List Attr) : List String :=
   (attrs.filter fun a => a.name.space == "" && (a.name.loc == "to" || a.name.loc == "from") && a.value != "").map (·.value)
 
+/-! ### the address table probed on the real code -/
+
+/-- a parser given by its verdicts on finitely many addresses (accepted as they stand otherwise) -/
+def parseOfList (m : List (String × Option String)) : ParseFn := fun s =>
+  match m.find? (·.1 == s) with
+  | some (_, v) => v
+  | none => some s
+
+/-- address forms of the probe: canonical, rewritten by `jid.Parse`, rejected ones, empty -/
+def probeAddrForms : List String :=
+  ["a@example.org/r", "A@EXAMPLE.org/R", "b@Example.NET", "@@", "a@/r", "example.org", ""]
+
+def probeAddrOpts : List (Option String) := none :: probeAddrForms.map some
+
+def addrAttrs (to frm : Option String) : List Attr :=
+  [⟨⟨"", "id"⟩, "p1"⟩] ++
+  (match to with | some v => [(⟨⟨"", "to"⟩, v⟩ : Attr)] | none => []) ++
+  (match frm with | some v => [(⟨⟨"", "from"⟩, v⟩ : Attr)] | none => [])
+
+structure AddrRow where
+  kind : Kind
+  attrs : List Attr
+  /-- `none`: the router returned an error and no handler ran; otherwise the header of the
+  stanza value the wildcard handler was handed -/
+  res : Option Hdr
+  deriving DecidableEq, Repr
+
+def addrTableModel (pt : List (String × Option String)) : List AddrRow :=
+  [Kind.iq, Kind.msg, Kind.pres].flatMap fun k => probeAddrOpts.flatMap fun to => probeAddrOpts.map fun frm =>
+    ⟨k, addrAttrs to frm, stanzaHdrP (parseOfList pt) k (addrAttrs to frm)⟩
+
 /-! ### dispatches in flight on one multiplexer -/
 
 /-- the reader of one dispatch in flight: the heap slot holding its replay buffer, its offset,
